@@ -1,0 +1,19 @@
+//go:build verif
+
+// Package verifgate is the verification hook of the pipeline: with the build
+// tag "verif" every gate point reports to a callback that may observe it, hold
+// the calling goroutine, or make the operation fail. Without the tag Gate is
+// an inlined no-op.
+package verifgate
+
+// Hook is called at every gate point when set. A non-nil result makes the
+// gated operation return that error without running.
+var Hook func(op string, args ...any) error
+
+// Gate reports a gate point.
+func Gate(op string, args ...any) error {
+	if h := Hook; h != nil {
+		return h(op, args...)
+	}
+	return nil
+}
